@@ -235,9 +235,17 @@ static int measure_nets(const cs_vna *v, const cs_net *nets, const cs_c *S,
     return 0;
 }
 
+double cs_receiver_gain;
+
 int cs_measure(const cs_vna *v, int findex, const cs_c *S, cs_c *M)
 {
-    return measure_nets(v, v->net[findex], S, M);
+    int rc = measure_nets(v, v->net[findex], S, M);
+    /* every reading scaled by the gain of the receivers: an instrument
+       the error model represents as well as the unscaled one */
+    if (rc == 0 && cs_receiver_gain != 0.0)
+	for (int i = 0; i < v->rows * v->cols; ++i)
+	    M[i] *= cs_receiver_gain;
+    return rc;
 }
 
 cs_c cs_param_value(const cs_vna *v, const cs_param *p, double f)
